@@ -484,7 +484,12 @@ func labelFor(msg string) string {
 	return "explain:"
 }
 
-func (x Exp) matches(a Actual, checkEcho bool) bool {
+// matches: strict mode pins a substring of the library's default wording (which identifies the rule
+// when no custom message does); loose mode accepts any non-empty default text. Diff tries strict
+// first and falls back to loose, so a change of the default wording alone is never reported.
+func (x Exp) matches(a Actual, checkEcho bool) bool { return x.matchesMode(a, checkEcho, false) }
+
+func (x Exp) matchesMode(a Actual, checkEcho, loose bool) bool {
 	switch x.Kind {
 	case "input":
 		if a.Kind != "input" || a.Path != x.Path {
@@ -495,8 +500,11 @@ func (x Exp) matches(a Actual, checkEcho bool) bool {
 				return false
 			}
 		} else {
-			if a.Text == "" || (x.Default != "" && !strings.Contains(a.Text, x.Default)) {
+			if a.Text == "" || (!loose && x.Default != "" && !strings.Contains(a.Text, x.Default)) {
 				return false
+			}
+			if loose && (strings.HasPrefix(a.Text, "m_") || strings.HasPrefix(a.Text, "必_") || strings.HasPrefix(a.Text, "fn_")) {
+				return false // that is one of the harness's custom messages, not default wording
 			}
 		}
 		if checkEcho && x.EchoOK && a.Echo != x.Echo {
@@ -504,7 +512,7 @@ func (x Exp) matches(a Actual, checkEcho bool) bool {
 		}
 		return true
 	case "group":
-		if a.Kind != "group" || len(a.Paths) != len(x.Group) || !strings.Contains(a.Text, x.Default) {
+		if a.Kind != "group" || len(a.Paths) != len(x.Group) || (!loose && !strings.Contains(a.Text, x.Default)) {
 			return false
 		}
 		want, got := x.Group, a.Paths
@@ -526,7 +534,7 @@ func (x Exp) matches(a Actual, checkEcho bool) bool {
 		if strings.Contains(x.ConfigS, "is not exist") && a.Path != x.Path {
 			return false
 		}
-		return strings.Contains(a.Raw, x.ConfigS)
+		return loose || strings.Contains(a.Raw, x.ConfigS)
 	}
 	return false
 }
@@ -577,21 +585,26 @@ func Diff(exp []Exp, act []Actual, checkEcho bool) DiffResult {
 		// among the unused expected clauses that match (identical clauses are interchangeable)
 		// prefer one that keeps the walk order consistent with what was matched so far
 		first := -1
-		for j, x := range exp {
-			if used[j] || !x.matches(a, checkEcho) {
-				continue
-			}
-			if first < 0 {
-				first = j
-			}
-			ok := true
-			for k := 0; k < i && ok; k++ {
-				if mustPrecede(x.Order, exp[match[k]].Order) {
-					ok = false
+		for _, loose := range []bool{false, true} {
+			for j, x := range exp {
+				if used[j] || !x.matchesMode(a, checkEcho, loose) {
+					continue
+				}
+				if first < 0 {
+					first = j
+				}
+				ok := true
+				for k := 0; k < i && ok; k++ {
+					if mustPrecede(x.Order, exp[match[k]].Order) {
+						ok = false
+					}
+				}
+				if ok {
+					match[i] = j
+					break
 				}
 			}
-			if ok {
-				match[i] = j
+			if match[i] >= 0 || first >= 0 {
 				break
 			}
 		}
@@ -604,7 +617,7 @@ func Diff(exp []Exp, act []Actual, checkEcho bool) DiffResult {
 		if match[i] < 0 {
 			// is it a clause with a wrong echo only?
 			for j, x := range exp {
-				if !used[j] && x.matches(a, false) {
+				if !used[j] && x.matchesMode(a, false, true) {
 					return DiffResult{"echo", x.Rule, fmt.Sprintf("clause %q echoes %q, expected %q", a.Raw, a.Echo, x.Echo)}
 				}
 			}
